@@ -70,6 +70,12 @@ type jquery struct {
 	Thr    int      `json:"thr,omitempty"`
 	Skip   int      `json:"skip,omitempty"`
 	Labels []uint64 `json:"labels,omitempty"`
+	Spans  [][4]int `json:"spans,omitempty"` // roi: (z, y, x0, x1) in block coordinates
+}
+
+type jlabels struct {
+	L     uint64 `json:"l"`
+	Elems []elem `json:"elems"`
 }
 
 type jop struct {
@@ -82,6 +88,7 @@ type jop struct {
 	Labels  []uint64 `json:"labels,omitempty"` // merged bodies / cleaved supervoxels
 	B       pos      `json:"b,omitempty"`
 	Paint   []jpaint `json:"paint,omitempty"` // full content of the block (runs with label 0 included)
+	LabelLists []jlabels `json:"labellists,omitempty"` // POST labels
 	Force   bool     `json:"force,omitempty"` // re-emit every persistent query after this op
 	Queries []jquery `json:"queries,omitempty"`
 }
@@ -322,6 +329,7 @@ type hist struct {
 	obs0   []string
 	steps  []string
 	size   int
+	rois   int // roi instances created so far in this repo
 }
 
 var repoSeq int
@@ -552,6 +560,23 @@ func (h *hist) observe(force bool, qs []jquery) []string {
 		sz := fmt.Sprintf("%d_%d_%d", q.Size[0], q.Size[1], q.Size[2])
 		off := fmt.Sprintf("%d_%d_%d", q.Off[0], q.Off[1], q.Off[2])
 		switch q.Q {
+		case "roi":
+			// a fresh roi instance (same block size as the annotation) holding the query's spans
+			h.rois++
+			name := fmt.Sprintf("roi%d", h.rois)
+			if err := dv.NewInstance(h.uuid, "roi", name, map[string]string{"BlockSize": "16,16,16"}); err != nil {
+				fatal("roi instance: %v", err)
+			}
+			sp, _ := json.Marshal(q.Spans)
+			if r := dv.Post(h.url(name, "roi"), sp); r.Status != 200 {
+				fatal("POST roi: %d %s", r.Status, r.Body)
+			}
+			es := h.getElems(h.url("ann", "roi/"+name))
+			ss := make([]string, len(q.Spans))
+			for i, x := range q.Spans {
+				ss[i] = fmt.Sprintf("(%s,%s,%s,%s)", z(x[0]), z(x[1]), z(x[2]), z(x[3]))
+			}
+			items = append(items, fmt.Sprintf("zRoi [%s] %s", strings.Join(ss, ";"), coqElems(es)))
 		case "region":
 			es := h.getElems(h.url("ann", "elements/"+sz+"/"+off))
 			items = append(items, fmt.Sprintf("zRegion %s %s %s", q.Off.coq(), q.Size.coq(), coqElems(es)))
@@ -707,6 +732,17 @@ func (h *hist) exec(op *jop) (string, int) {
 	case "reload":
 		term = "zReload " + coqBlocks(op.Blocks)
 		cls = h.execReload(op)
+	case "labels":
+		// POST labels: raw ingest of label lists (each value is a JSON string holding the array)
+		m := map[string]string{}
+		var ls []string
+		for _, b := range op.LabelLists {
+			m[u(b.L)] = string(wireElems(b.Elems))
+			ls = append(ls, fmt.Sprintf("(%d,%s)", b.L, coqElems(b.Elems)))
+		}
+		req, _ := json.Marshal(m)
+		term = "zLabels [" + strings.Join(ls, ";") + "]"
+		cls = classOf(dv.Post(h.url("ann", "labels"), req))
 	case "merge":
 		label = true
 		term = fmt.Sprintf("zMerge %d %s", op.Target, coqU64s(op.Labels))
@@ -1443,6 +1479,43 @@ func (g *gstate) genMerge() *jop {
 	return op
 }
 
+// genLabels: POST labels with the lists the label index must hold anyway (relationship-free, any order)
+func (g *gstate) genLabels() *jop {
+	by := map[uint64][]elem{}
+	for _, e := range g.els {
+		if l := g.h.bodyAt(e.Pos); l != 0 {
+			c := cp(e)
+			c.Rels = nil
+			by[l] = append(by[l], c)
+		}
+	}
+	if len(by) == 0 {
+		return nil
+	}
+	var ls []uint64
+	for l := range by {
+		ls = append(ls, l)
+	}
+	sort.Slice(ls, func(i, j int) bool { return ls[i] < ls[j] })
+	op := &jop{Op: "labels"}
+	for _, i := range g.shuffled(len(ls)) {
+		l := ls[i]
+		es := by[l]
+		sh := make([]elem, len(es))
+		for k, j := range g.shuffled(len(es)) {
+			sh[k] = es[j]
+		}
+		op.LabelLists = append(op.LabelLists, jlabels{L: l, Elems: sh})
+		if len(op.LabelLists) == 2 {
+			break
+		}
+	}
+	if g.r.Chance(0.3) {
+		op.LabelLists = append(op.LabelLists, jlabels{L: 0, Elems: []elem{g.newElem(pos{1, 1, 1})}}) // label 0 is skipped by the server
+	}
+	return op
+}
+
 // genSplit: a proper part of one body, an x-interval inside one of its runs
 func (g *gstate) genSplit() *jop {
 	bl := g.bodies()
@@ -1595,7 +1668,14 @@ func (g *gstate) genQuery() jquery {
 		}
 		return off, size
 	}
-	switch g.r.Intn(10) {
+	switch g.r.Intn(11) {
+	case 10:
+		q := jquery{Q: "roi"}
+		for n := 1 + g.r.Intn(3); n > 0; n-- {
+			x0 := g.r.Pick(-3, -2, -1, 0, 1)
+			q.Spans = append(q.Spans, [4]int{g.r.Pick(0, 0, 0, -1, 1), g.r.Pick(0, 0, 0, -1, 1), x0, x0 + g.r.Intn(4)})
+		}
+		return q
 	case 0, 1, 2:
 		o, s := box()
 		return jquery{Q: "region", Off: o, Size: s}
@@ -1622,7 +1702,13 @@ func (g *gstate) genQuery() jquery {
 func (g *gstate) genOp(f *flags) *jop {
 	for {
 		var op *jop
-		w := g.r.Intn(121)
+		w := g.r.Intn(124)
+		if w >= 121 {
+			if op = g.genLabels(); op != nil {
+				return op
+			}
+			continue
+		}
 		if w >= 114 {
 			if op = g.genSplit(); op != nil {
 				return op
@@ -1875,7 +1961,9 @@ func corpus() []jcase {
 			{Op: "post", Elems: []elem{{Pos: pos{-2, 1, 1}, Kind: 2}, {Pos: pos{-9, 1, 1}, Kind: 1}, {Pos: pos{5, 1, 1}, Kind: 1}, {Pos: pos{2, 15, 0}, Kind: 4}, {Pos: pos{5, 16, 1}, Kind: 3}}},
 			{Op: "merge", Target: 1, Labels: []uint64{5}},
 			{Op: "split", Target: 1, P: pos{-4, 0, 0}, Q: pos{3, 0, 0}, Force: true},
-			{Op: "split", Target: 1, P: pos{5, 0, 0}, Q: pos{5, 0, 0}, Force: true},
+			{Op: "split", Target: 1, P: pos{5, 0, 0}, Q: pos{5, 0, 0}, Force: true, Queries: []jquery{
+				{Q: "roi", Spans: [][4]int{{0, 0, -1, 0}, {1, 0, 0, 0}, {0, 1, -2, 2}}}}},
+			{Op: "labels", LabelLists: []jlabels{{L: 1, Elems: []elem{{Pos: pos{-9, 1, 1}, Kind: 1}}}, {L: 0, Elems: []elem{{Pos: pos{1, 1, 1}, Kind: 1}}}}, Force: true},
 		}},
 	}
 }
